@@ -75,6 +75,33 @@ def find_assign(fn, target, nth=0):
     return hits[nth]
 
 
+class Block:
+    """a statement list treated like a function body by the find_* helpers"""
+
+    def __init__(self, body, name):
+        self.body, self.name = list(body), name
+
+
+def find_if(fn, test_src, nth=0):
+    hits = [n for n in own_nodes(fn) if isinstance(n, ast.If) and ast.unparse(n.test) == test_src]
+    hits.sort(key=lambda n: (n.lineno, n.col_offset))
+    if len(hits) <= nth:
+        raise Unsupported(f"`if {test_src}` (#{nth}) not found in {fn.name}")
+    return hits[nth]
+
+
+def find_setitem(fn, target_prefix):
+    """statement `<target> = value` / `<target> += value` whose target source starts with the given text"""
+    hits = []
+    for n in own_nodes(fn):
+        if isinstance(n, ast.Assign) and any(target_str(t).startswith(target_prefix) for t in n.targets):
+            hits.append(n)
+        elif isinstance(n, ast.AugAssign) and target_str(n.target).startswith(target_prefix):
+            hits.append(n)
+    hits.sort(key=lambda n: (n.lineno, n.col_offset))
+    return hits
+
+
 def find_returns(fn):
     r = [n for n in own_nodes(fn) if isinstance(n, ast.Return)]
     r.sort(key=lambda n: n.lineno)
@@ -120,6 +147,8 @@ class Tx:
             return self.env[src]
         if isinstance(n, ast.Constant):
             return lit(n.value)
+        if isinstance(n, ast.NamedExpr):
+            return self(n.value)
         if isinstance(n, ast.Name):
             raise Unsupported(f"free name {n.id!r}")
         if isinstance(n, ast.UnaryOp) and isinstance(n.op, ast.USub):
@@ -140,6 +169,8 @@ class Tx:
                 return self(n.args[0])
             if f in ("np.power", "pow") and len(n.args) == 2:
                 return f"(rpow {self(n.args[0])} {self(n.args[1])})"
+            if f == "np.where" and len(n.args) == 3 and not n.keywords:
+                return f"(if {self.cond(n.args[0])} then {self(n.args[1])} else {self(n.args[2])})"
             if f in FUNCS and FUNCS[f] and len(n.args) == 1 and not n.keywords:
                 return f"({FUNCS[f]} {self(n.args[0])})"
             raise Unsupported(f"call {f}")
@@ -164,6 +195,10 @@ class Tx:
         if isinstance(n, ast.BoolOp):
             op = " && " if isinstance(n.op, ast.And) else " || "
             return "(" + op.join(self.cond(v) for v in n.values) + ")"
+        if isinstance(n, ast.BinOp) and isinstance(n.op, ast.BitAnd):
+            return "(" + self.cond(n.left) + " && " + self.cond(n.right) + ")"
+        if isinstance(n, ast.Name) and ast.unparse(n) in self.env:
+            return self.env[ast.unparse(n)]
         if isinstance(n, ast.Compare):
             parts, left = [], n.left
             for op, right in zip(n.ops, n.comparators):
@@ -231,6 +266,166 @@ def items(trees):
         return Tx(A3).cond(i.test) + " -- Bool" if which == "cond" else Tx(A3)(i.body[0].value)
     add("mto_bh_fin", "a0 a1 a2 t", lambda: mto_bh("fin"))
     add("mto_bh_cond", "a0 t", lambda: mto_bh("cond"))
+
+    # --- entries of the stellar-evolution derivative (C02, C01, C19)
+    def sev_item(which):
+        fn = find_def(ev, "EvolvedMF._derivs_sev")
+        env = {"Nj": "Nj", "mto": "mto", "alphaj": "aj", "Pk(alphaj, 1, m1, mto)": "p", "Aj": "Aj", "dNdm": "dNdm", "dmdt": "dmdt",
+               "dNdt": "dNdt", "m_rem": "mrem", "frem": "frem"}
+        tx = Tx(env)
+        if which == "Aj":
+            return tx(value_of(find_assign(fn, "Aj")))
+        if which == "dNdm":
+            return tx(value_of(find_assign(fn, "dNdm", 0)))
+        if which == "dNdt":
+            return tx(value_of(find_assign(fn, "dNdt")))
+        if which in ("dNr", "dMr"):
+            hits = find_setitem(fn, f"getattr({which}, cls_rem)[irem]")
+            if len(hits) != 1:
+                raise Unsupported(f"_derivs_sev: expected one deposit into {which}")
+            return tx(hits[0].value)
+        if which == "frem_source":
+            src = ast.unparse(value_of(find_assign(fn, "frem")))
+            if src != "self._frem[cls_rem]":
+                raise Unsupported(f"_derivs_sev: retention fraction is no longer read as self._frem[cls_rem] but as `{src}`")
+            return "(1 : α)"
+        if which == "gate":
+            i = [n for n in own_nodes(fn) if isinstance(n, ast.If) and "m_rem" in ast.unparse(n.test) and "dNdt" in ast.unparse(n.test)]
+            if len(i) != 1:
+                raise Unsupported("_derivs_sev: deposit condition not found")
+            return Tx({"m_rem": "mrem", "dNdt": "dNdt"}).cond(i[0].test) + " -- Bool"
+        if which == "active":
+            i = [n for n in own_nodes(fn) if isinstance(n, ast.If) and ast.unparse(n.test).startswith("mto > m1")]
+            if len(i) != 1:
+                raise Unsupported("_derivs_sev: active-bin condition not found")
+            return Tx({"mto": "mto", "m1": "m1", "Nj": "Nj", "self.Nmin": "nmin"}).cond(i[0].test) + " -- Bool"
+        raise Unsupported(which)
+    add("sev_Aj", "Nj p", lambda: sev_item("Aj"))
+    add("sev_dNdm", "Aj mto aj", lambda: sev_item("dNdm"))
+    add("sev_dNdt", "dNdm dmdt", lambda: sev_item("dNdt"))
+    add("sev_dNr", "dNdt frem", lambda: sev_item("dNr"))
+    add("sev_dMr", "mrem dNdt frem", lambda: sev_item("dMr"))
+    add("sev_frem_is_table_entry", "x", lambda: sev_item("frem_source"))
+    add("sev_gate", "mrem dNdt", lambda: sev_item("gate"))
+    add("sev_active", "mto m1 Nj nmin", lambda: sev_item("active"))
+
+    # --- entries of the BH-only derivative nested in InitialBHPopulation.from_IMF (C19)
+    def bh_item(which):
+        fn = find_def(ev, "InitialBHPopulation.from_IMF._derivs_BHs")
+        env = {"Nj": "Nj", "mto": "mto", "alphas[isev]": "aj", "Pk(alphas[isev], 1, m1, mto)": "p", "Aj": "Aj", "dNdm": "dNdm", "dmdt": "dmdt",
+               "dNdt": "dNdt", "m_rem": "mrem", "frem": "frem", "m1": "m1", "t": "t", "final_age": "fa"}
+        tx = Tx(env)
+        if which == "Aj":
+            return tx(value_of(find_assign(fn, "Aj")))
+        if which == "dNdm":
+            return tx(value_of(find_assign(fn, "dNdm", 0)))
+        if which == "dNdt":
+            return tx(value_of(find_assign(fn, "dNdt")))
+        if which in ("dNr", "dMr"):
+            hits = find_setitem(fn, f"{which}[irem]")
+            if len(hits) != 1:
+                raise Unsupported(f"_derivs_BHs: expected one deposit into {which}")
+            return tx(hits[0].value)
+        if which == "frem":
+            return Tx({})(value_of(find_assign(fn, "frem")))
+        if which == "gate":
+            i = [n for n in own_nodes(fn) if isinstance(n, ast.If) and "m_rem" in ast.unparse(n.test) and "final_age" in ast.unparse(n.test)]
+            if len(i) != 1:
+                raise Unsupported("_derivs_BHs: deposit condition not found")
+            return Tx({"t": "t", "final_age": "fa", "_ifmr.predict(mto)": "mrem"}).cond(i[0].test) + " -- Bool"
+        if which == "active":
+            i = [n for n in own_nodes(fn) if isinstance(n, ast.If) and ast.unparse(n.test).startswith("mto > m1")]
+            if len(i) != 1:
+                raise Unsupported("_derivs_BHs: active-bin condition not found")
+            return Tx({"mto": "mto", "m1": "m1", "Ns[isev]": "Nj"}).cond(i[0].test) + " -- Bool"
+        raise Unsupported(which)
+    add("bh_Aj", "Nj p", lambda: bh_item("Aj"))
+    add("bh_dNdm", "Aj mto aj", lambda: bh_item("dNdm"))
+    add("bh_dNdt", "dNdm dmdt", lambda: bh_item("dNdt"))
+    add("bh_dNr", "dNdt frem", lambda: bh_item("dNr"))
+    add("bh_dMr", "mrem dNdt frem", lambda: bh_item("dMr"))
+    add("bh_frem", "x", lambda: bh_item("frem"))
+    add("bh_gate", "t fa mrem", lambda: bh_item("gate"))
+    add("bh_active", "mto m1 Nj", lambda: bh_item("active"))
+
+    # --- entries of the escape derivative (C03, C05, C18)
+    def esc_blocks():
+        fn = find_def(ev, "EvolvedMF._derivs_esc")
+        pre = find_if(fn, "t < self.tcc")
+        preM = find_if(Block(pre.body, "pre"), "self._esc_norm == 'M'")
+        if len(preM.orelse) != 1 or not isinstance(preM.orelse[0], ast.If) or ast.unparse(preM.orelse[0].test) != "self._esc_norm == 'N'":
+            raise Unsupported("_derivs_esc: pre-collapse 'N' branch not found")
+        return fn, Block(preM.body, "preM"), Block(preM.orelse[0].body, "preN")
+
+    def esc_pre(which, target):
+        fn, bM, bN = esc_blocks()
+        blk = bM if which == "M" else bN
+        env = {"esc_rate": "rate", "Ns": "N", "Nr[c][sel]": "N", "Mr[c][sel]": "M", "M_sum": "D", "N_sum": "D"}
+        try:
+            env["mr"] = Tx(env)(value_of(find_assign(blk, "mr")))
+        except Unsupported:
+            pass
+        hits = find_setitem(blk, target)
+        if len(hits) != 1:
+            raise Unsupported(f"_derivs_esc pre/{which}: expected one update of {target}, found {len(hits)}")
+        return Tx(env)(hits[0].value)
+    add("esc_preM_dNs", "rate N D", lambda: esc_pre("M", "dNs"))
+    add("esc_preM_dNr", "rate N M D", lambda: esc_pre("M", "dNr[c][sel]"))
+    add("esc_preM_dMr", "rate N M D", lambda: esc_pre("M", "dMr[c][sel]"))
+    add("esc_preN_dNs", "rate N D", lambda: esc_pre("N", "dNs"))
+    add("esc_preN_dNr", "rate N M D", lambda: esc_pre("N", "dNr[c][sel]"))
+    add("esc_preN_dMr", "rate N M D", lambda: esc_pre("N", "dMr[c][sel]"))
+
+    def esc_post(which):
+        fn = find_def(ev, "EvolvedMF._derivs_esc")
+        env = {"Ns": "n", "md": "md", "P1": "p1", "P15": "p15", "P2": "p2", "P25": "p25", "B": "B", "esc_rate": "rate",
+               "Nr[c][rem_mask]": "N", "Mr[c][rem_mask]": "M", "Ir[c][rem_mask]": "I", "Jr[c][rem_mask]": "J", "Is": "I", "finite_mask": "fin",
+               "bins_MS.lower[depl_mask]": "lo", "bins_MS.upper[depl_mask]": "hi",
+               "np.sum(Js)": "sJs", "np.sum(np.r_[Jr])": "sJr", "np.sum(Is)": "sIs", "np.sum(np.r_[Ir])": "sIr"}
+        tx = Tx(env, masks=["depl_mask"])
+        env["ms"] = tx(value_of(find_assign(fn, "ms")))
+        env["Ms"] = tx(value_of(find_assign(fn, "Ms")))
+        mrs = [n for n in own_nodes(fn) if isinstance(n, ast.Assign) and target_str(n.targets[0]) == "mr"
+               and "rem_mask" in ast.unparse(n.value)]
+        if len(mrs) != 1:
+            raise Unsupported("_derivs_esc post: remnant mean mass assignment not found")
+        env["mr"] = tx(mrs[0].value)
+        if which == "depl":
+            return tx.cond(value_of(find_assign(fn, "depl_mask"))) + " -- Bool"
+        if which == "Is":
+            return tx(value_of(find_assign(fn, "Is")))
+        if which in ("Js0", "Js1"):
+            return tx(value_of(find_assign(fn, "Js", int(which[-1]))))
+        if which in ("Ir", "Jr"):
+            hits = find_setitem(fn, f"{which}[c][rem_mask]")
+            if len(hits) != 1:
+                raise Unsupported(f"_derivs_esc post: expected one assignment of {which}")
+            return tx(hits[0].value)
+        if which in ("BM", "BN"):
+            return tx(value_of(find_assign(fn, "B", 0 if which == "BM" else 1)))
+        if which in ("dNs", "dalpha"):
+            hits = find_setitem(fn, f"{which}[depl_mask]")
+            if len(hits) != 1:
+                raise Unsupported(f"_derivs_esc post: expected one update of {which}[depl_mask]")
+            return tx(hits[0].value)
+        if which in ("dNr", "dMr"):
+            hits = find_setitem(fn, f"{which}[c][rem_mask]")
+            if len(hits) != 1:
+                raise Unsupported(f"_derivs_esc post: expected one update of {which}[c][rem_mask]")
+            return tx(hits[0].value)
+        raise Unsupported(which)
+    add("esc_depl", "p1 p2 md", lambda: esc_post("depl").replace(" && fin)", ")"))
+    add("esc_Is", "n md p1 p15", lambda: esc_post("Is"))
+    add("esc_Js_a", "n md p1 p2 p25", lambda: esc_post("Js0"))
+    add("esc_Js_b", "n md p1 p2 p25", lambda: esc_post("Js1"))
+    add("esc_Ir", "N M md", lambda: esc_post("Ir"))
+    add("esc_Jr", "N M md", lambda: esc_post("Jr"))
+    add("esc_B_M", "rate sJs sJr", lambda: esc_post("BM"))
+    add("esc_B_N", "rate sIs sIr", lambda: esc_post("BN"))
+    add("esc_post_dNs", "B I", lambda: esc_post("dNs"))
+    add("esc_post_dalpha", "B lo hi md", lambda: esc_post("dalpha"))
+    add("esc_post_dNr", "B I J", lambda: esc_post("dNr"))
+    add("esc_post_dMr", "B I J", lambda: esc_post("dMr"))
 
     # --- Pk (C12)
     pkenv = {"a": "a", "k": "k", "m1": "m1", "m2": "m2"}
